@@ -348,6 +348,27 @@ def run(ctx):
         e['rect'], e['shape_out'], e['leaves_out'] = rect, shp_out, enc
         e['got'] = 'shape %r' % (shp_out,)
         events.append(e)
+    # string arrays under memory pressure: many round trips in ONE small string space, so that garbage collections fall
+    # in the middle of set_variable (values converted but not yet assigned must survive them)
+    for rep in range(ctx.pick(6, 60)):
+        api.sess.ex('CLEAR ,%d' % rng.choice([6000, 6200, 6500]))
+        api.sess.ex('DIM PS$(5)')
+        for i in range(40):
+            lst = [bytes(rng.randint(33, 126) for _ in range(rng.randint(5, 45))) for _ in range(6)]
+            e = {'op': 'array', 't': '$', 'dimensioned': True, 'base': -1, 'shape_in': [6], 'pressure': True,
+                 'leaves_in': [leaf_enc('$', v) for v in lst],
+                 'shown': 'CLEAR ,small; DIM PS$(5); round trip %d: set_variable("PS$()", <6 strings>)' % i}
+            outcome(e, 's', api.set('PS$()', lst))
+            g = api.get('PS$()')
+            outcome(e, 'g', g)
+            rect, shp_out, leaves_out = shape_of(g[2]) if isinstance(g[2], list) else (False, [], [])
+            enc = [leaf_enc('$', v) for v in leaves_out]
+            if any(x is None for x in enc):
+                rect, shp_out, enc = False, [], []
+            e['rect'], e['shape_out'], e['leaves_out'] = rect, shp_out, enc
+            events.append(e)
+            if e.get('sk') == 'pyexc' or e.get('gk') == 'pyexc':
+                break
     # unicode elements in a string array (documented: unicode is converted according to the codepage)
     for i in range(ctx.pick(30, 300)):
         n = rng.randint(1, 4)
